@@ -334,7 +334,8 @@ pub fn dleq_replay(a: &Args) -> Report {
               let mut c = pb.clone();
               add_one_le(&mut c[off..off + 32]);
               muts.push(("plus-one".into(), c));
-              for bit in [0usize, 77, 250] {
+              // one bit in every byte of the scalar (a verifier that reads only part of it)
+              for bit in [0usize, 77, 250].into_iter().chain((0..32).map(|i| 8 * i + (i * 3) % 8)) {
                 let mut c = pb.clone();
                 c[off + bit / 8] ^= 1 << (bit % 8);
                 muts.push((format!("bitflip{bit}"), c));
